@@ -52,3 +52,17 @@ Theorem udp_status_vocabulary :
           Gen.Status.statuses = true.
 Proof. exact eq_refl. Qed.
 Print Assumptions udp_status_vocabulary.
+
+(* a datagram whose send the kernel refuses still creates its association and is reported on it
+   once, as a failure with 0 payload bytes *)
+Theorem udp_send_failure_reported e ue st ca cip pkt ent pt payload dst port :
+  alookup N.eqb ca (u_nat st) = None ->
+  In ent (items (u_cl st)) -> unpack e (e_key ent) pkt = Some pt ->
+  (forall k' pt', unpack e k' pkt = Some pt' -> pt' = pt) ->
+  validate_packet ue pt = inl (payload, dst, port) ->
+  ue_sendable ue dst port = false ->
+  exists st' id, udp_client_step e ue st ca cip pkt =
+    (st', [UNew ca (u_next st) id; UReport (u_next st) us_write (zlen pkt) 0])
+    /\ alookup N.eqb ca (u_nat st') <> None.
+Proof. exact (udp_send_failure_lemma e ue st ca cip pkt ent pt payload dst port). Qed.
+Print Assumptions udp_send_failure_reported.
